@@ -7,6 +7,12 @@ position (dataset, observation, channel, time point) it came from.  The property
 the traced positions are exactly those the operation is supposed to keep, in the order it
 is supposed to produce, and every descriptor value attached to a result row / column /
 time slice equals the value its source position carried.  Plain loops, no model.
+
+Round 4: after every step EVERY object of the workspace is re-read, not only the result: a
+dataset the operation was not addressed to (and the kept source of a value-returning operation,
+and every dataset after a query / a refused call) must hold exactly the measurements it held, each
+still carrying exactly the labels it carried (`check_frame`, `check_untouched`).  Datasets that
+were built from one measurement array keep sharing one array when they are retagged.
 """
 from fractions import Fraction
 import numpy as np
@@ -25,11 +31,21 @@ import random as _random
 _TAGS = _random.Random(20240611).sample(range(1, 2_000_000), 100_000)     # fixed, pairwise distinct
 
 
-def retag(ws, start=1):
-    """overwrite measurements with unique tags; returns {tag: (dataset, i, j, t)}"""
+def retag(ws, start=1, share=True):
+    """overwrite measurements with unique tags; returns ({tag: (dataset, i, j, t)}, group) where
+    group[k] = first dataset of the workspace that holds the very same measurement array object
+    (two datasets built from one array keep sharing one array, as they did: what one of them
+    writes into it is seen by the other; `dataset` in the tag map is the group's first member)"""
     where = {}
     nxt = start
+    arrays, alive, group = {}, [], []
     for di, d in enumerate(ws):
+        alive.append(d.measurements)            # keep the old arrays alive: ids must stay unique
+        if share and id(d.measurements) in arrays:
+            g, arr = arrays[id(d.measurements)]
+            d.measurements = arr
+            group.append(g)
+            continue
         no, nc, nt = R.dims(d)
         m = np.zeros((no, nc, nt))
         for i in range(no):
@@ -41,20 +57,24 @@ def retag(ws, start=1):
                     m[i, j, t] = tag
                     where[tag] = (di, i, j, t)
                     nxt += 1
-        d.measurements = m if d.measurements.ndim == 3 else m[:, :, 0]
-    return where
+        arr = m if d.measurements.ndim == 3 else m[:, :, 0]
+        arrays[id(d.measurements)] = (di, arr)
+        d.measurements = arr
+        group.append(di)
+    return where, group
 
 
 def view(d):
     """labelled view: per-axis label dicts, dataset labels, 3-d values"""
     c = R.canon(d)
     no, nc, nt = R.dims(d)
-    m = np.asarray(d.measurements, dtype=float).reshape(no, nc, nt)
+    m = np.array(d.measurements, dtype=float).reshape(no, nc, nt)      # a snapshot, not a view
     return {
         'no': no, 'nc': nc, 'nt': nt, 'm': m, 'desc': c['desc'],
-        'obs': [{k: v[i] for k, v in c['obs'].items()} for i in range(no)],
-        'chan': [{k: v[j] for k, v in c['chan'].items()} for j in range(nc)],
-        'time': [{k: v[t] for k, v in c['time'].items()} for t in range(nt)],
+        # a column shorter than its axis (a misaligned dataset: `lengths_ok` reports it) is padded
+        'obs': [{k: (v[i] if i < len(v) else '~no entry~') for k, v in c['obs'].items()} for i in range(no)],
+        'chan': [{k: (v[j] if j < len(v) else '~no entry~') for k, v in c['chan'].items()} for j in range(nc)],
+        'time': [{k: (v[t] if t < len(v) else '~no entry~') for k, v in c['time'].items()} for t in range(nt)],
         'lens': {ax: {k: len(v) for k, v in c[ax].items()} for ax in ('obs', 'chan', 'time')},
         'temporal': c['temporal'],
     }
@@ -155,6 +175,55 @@ def groups_first(col):
     return R.uniq_first(col)
 
 
+def check_untouched(before, d, what, where, g):
+    """`d` (a dataset the operation was NOT addressed to, or the kept source of a value-returning
+    operation) is re-read: it holds exactly the measurements it held, and every one of them still
+    carries exactly the observation / channel / time labels it carried before the operation
+    (`g`: the dataset index its tags were registered under)"""
+    now = view(d)
+    lengths_ok(now)
+    if (now['no'], now['nc'], now['nt']) != (before['no'], before['nc'], before['nt']) or \
+            now['temporal'] != before['temporal']:
+        raise Bad(f'{what}: shape / class changed', (now['no'], now['nc'], now['nt']),
+                  (before['no'], before['nc'], before['nt']))
+    tr = trace(now, where)
+    for axis, (ax, n) in enumerate((('obs', now['no']), ('chan', now['nc']), ('time', now['nt']))):
+        src = axis_sources(tr, axis) if tr.size else [(g, p) for p in range(n)]
+        if any(di != g for di, _ in src) or sorted(p for _, p in src) != list(range(n)):
+            raise Bad(f'{what}: it no longer holds exactly its own {ax} positions', src, list(range(n)))
+        for p, (_, q) in enumerate(src):
+            a, b = now[ax][p], before[ax][q]
+            if sorted(a) != sorted(b):
+                raise Bad(f'{what}: {ax} descriptor keys changed', sorted(a), sorted(b))
+            for k in b:
+                if not _close(a[k], b[k]):
+                    raise Bad(f'{what}: the measurements of {ax} position {q} now carry {k!r} = {a[k]!r}',
+                              a[k], b[k])
+    if sorted(now['desc']) != sorted(before['desc']) or \
+            any(not _close(now['desc'][k], before['desc'][k]) for k in before['desc']):
+        raise Bad(f'{what}: dataset descriptors changed', now['desc'], before['desc'])
+
+
+def check_frame(name, ws, ws_v, val, i, keep, kind, where, group):
+    """every object of the workspace the operation was not addressed to is unchanged (objects
+    before `i` keep their position, objects after `i` are shifted by the number of results - 1);
+    after a query / a refused call also the addressed one, and the kept source of a
+    value-returning operation likewise"""
+    if kind in ('query', 'rejected'):
+        for j, d in enumerate(ws):
+            check_untouched(ws_v[j], d, f'{name} ({kind}) on object {i}: object {j}', where, group[j])
+        return
+    if name in ('merge', 'pick'):
+        return
+    shift = len(val) - len(ws)
+    for j in range(len(ws)):
+        if j == i and not keep:
+            continue
+        d = val[j] if j <= i else val[j + shift]
+        who = 'its kept source' if j == i else f'object {j} (not addressed)'
+        check_untouched(ws_v[j], d, f'{name} on object {i}: {who}', where, group[j])
+
+
 def expected_after(op, args, ws_v, i):
     """what the property demands, as source-position lists per result dataset;
     returns list of `want` dicts (one per result dataset replacing workspace[i])"""
@@ -215,12 +284,17 @@ def expected_after(op, args, ws_v, i):
 
 def check_step(ws, op):
     """ws: real datasets (freshly tagged here).  Returns (new_ws, problem or None)."""
-    where = retag(ws)
+    name = op['name']
+    # datasets built from one measurement array keep sharing it (merge consumes them all: separate)
+    where0, group = retag(ws, share=(name != 'merge'))
     ws_v = [view(d) for d in ws]
     args, adm, call = R.resolve(ws, op)
     if not adm:
         return ws, None
-    name = op['name']
+    i0 = args['at'] if args else 0
+    # the addressed object's measurements are traced under its own index
+    where = where0 if group[i0] == i0 else \
+        {tag: ((i0,) + pos[1:] if pos[0] == group[i0] else pos) for tag, pos in where0.items()}
     import warnings
     with warnings.catch_warnings():
         warnings.simplefilter('ignore')
@@ -229,36 +303,42 @@ def check_step(ws, op):
         except Exception as exc:  # noqa: BLE001
             return ws, {'what': f'{name} raised {type(exc).__name__} on an admissible input',
                         'observed': str(exc)[:160], 'expected': 'a result', 'exception': R.exc_name(exc)}
+    keep = bool(op.get('keep')) and name in R.KEEPABLE
     if kind == 'rejected':
+        try:
+            check_frame(name, ws, ws_v, None, i0, keep, kind, where0, group)
+        except Bad as b:
+            return ws, {'what': b.what, 'observed': b.observed, 'expected': b.expected}
         return ws, None
     try:
         if kind == 'query':
             _check_query(name, args, ws_v[args['at']], val)
+            check_frame(name, ws, ws_v, None, i0, keep, kind, where0, group)
             return ws, None
         out_v = [view(d) for d in val]
         i = args['at'] if args else 0
+        off = 1 if keep else 0          # the results follow the kept source
         if name == 'merge':
             _check_merge(out_v, ws_v, where)
         elif name == 'bin_time':
-            _check_bin(out_v[i], ws_v[i], args)
+            _check_bin(out_v[i + off], ws_v[i], args)
         elif name == 'time_as_observations':
-            _check_tao(out_v[i], ws_v[i], where, args)
+            _check_tao(out_v[i + off], ws_v[i], where, args)
         elif name == 'time_as_channels':
-            _check_tac(out_v[i], ws_v[i], where)
+            _check_tac(out_v[i + off], ws_v[i], where)
         elif name in ('df', 'df_default'):
-            _check_df(out_v[i], ws_v[i], where, args, i)
+            _check_df(out_v[i + off], ws_v[i], where, args, i)
         else:
             wants = expected_after(op, args, ws_v, i)
-            new = out_v if name == 'pick' else out_v[i:i + len(out_v) - len(ws_v) + 1]
+            new = out_v if name == 'pick' else out_v[i + off:i + len(out_v) - len(ws_v) + 1]
             if len(new) != len(wants):
                 raise Bad(f'{name}: number of result datasets', len(new), len(wants))
             for v, w in zip(new, wants):
                 if v['temporal'] != ws_v[i]['temporal']:
                     raise Bad(f'{name}: dataset class changed')
                 check_gather(v, ws_v, where, w, name)
-            if name not in ('pick',):
-                # the other datasets of the workspace are untouched
-                pass
+        # all the other datasets of the workspace (and a kept source) are untouched: re-read each
+        check_frame(name, ws, ws_v, list(val), i, keep, kind, where0, group)
     except Bad as b:
         return list(val), {'what': b.what, 'observed': b.observed, 'expected': b.expected}
     return list(val), None
